@@ -7,9 +7,12 @@ of `normalize_timestamp`, the reject test / new bounds of `update`, every branch
 constructed `Gap` of `_update_gaps`, `_cleanup_gaps`, `_remove_gap`, the clamping / emptiness test / fill
 origin of `window`, the index arithmetic of `_fill_gaps`, the range tests of `to_internal_index` and
 `MovingWindow.at`.  They become `abbrev … : Prop` / `def … : Int` in `Extracted.RingBuffer`, which the model
-imports.  The rest of each method (statement order, which branch does what) is pinned: the method is
-unparsed with the translated expressions replaced by holes and compared with the skeleton recorded below;
-any other text raises (the check then treats the proofs as broken and searches for a failing input).
+imports.  The rest of each method (statement order, which branch does what) is pinned: the method is brought
+into a behaviour-preserving normal form (`_rb_common.normalize`: renamed locals, reordered independent
+statements, inverted tests, guard clauses, `match`, loops written as comprehensions, inlined helpers / locals
+all give the same form) and unified with the pattern recorded below, whose holes are the translated
+expressions; any other structure raises (the check then treats the proofs as broken and searches for a failing
+input).
 
 Time is translated to `Int` (the model instantiates `period := 1`, `fullRange := cap`: slot numbers).
 """
@@ -20,31 +23,29 @@ import pathlib
 import sys
 
 sys.path.insert(0, str(pathlib.Path(__file__).resolve().parent))
-from _rb_common import COMMON, Bad, _if_tests, expect, find_method, prop, strip_doc, tr  # noqa: E402
+from _rb_common import COMMON, find_method, lean_prop, match, negate, prop, tr  # noqa: E402
 
 NAME = "RingBuffer"
 SOURCES = ["src/frequenz/sdk/timeseries/_ringbuffer/buffer.py"]
 
 SK_CONTAINS = """
 def contains(self, timestamp):
-    if HOLE_c:
-        return True
-    return False
+    return HOLE_c
 """
 
 SK_NORMALIZE = """
 def normalize_timestamp(self, timestamp):
     num_samples, remainder = divmod(timestamp - self._time_index_alignment, self._sampling_period)
-    if HOLE_c:
-        num_samples += 1
+    if HOLE_keep:
+        return self._time_index_alignment + num_samples * self._sampling_period
+    num_samples += 1
     return self._time_index_alignment + num_samples * self._sampling_period
 """
 
 SK_UPDATE = """
 def update(self, sample):
-    timestamp = self.normalize_timestamp(sample.timestamp)
     if HOLE_reject:
-        raise IndexError(f'Timestamp {timestamp} too old (cut-off is at {self._timestamp_oldest}).')
+        raise IndexError
     prev_newest = self._timestamp_newest
     self._timestamp_newest = HOLE_newest
     self._timestamp_oldest = HOLE_oldest
@@ -52,13 +53,13 @@ def update(self, sample):
         value = sample.value.base_value
     else:
         value = np.nan
-    self._buffer[self.to_internal_index(timestamp)] = value
-    self._update_gaps(timestamp, prev_newest, not self.has_value(sample))
+    self._buffer[self.to_internal_index(self.normalize_timestamp(sample.timestamp))] = value
+    self._update_gaps(self.normalize_timestamp(sample.timestamp), prev_newest, not self.has_value(sample))
 """
 
 SK_HAS_VALUE = """
 def has_value(self, sample):
-    return not sample.value is None and (not sample.value.isnan())
+    return sample.value is not None and (not sample.value.isnan())
 """
 
 SK_UPDATE_GAPS = """
@@ -66,28 +67,27 @@ def _update_gaps(self, timestamp, newest, record_as_missing):
     found_in_gaps = self.is_missing(timestamp)
     if record_as_missing:
         if not found_in_gaps:
-            start_gap = HOLE_missing_s
-            self._gaps.append(Gap(start=start_gap, end=HOLE_missing_e))
-    else:
-        if HOLE_jump:
-            self._gaps = [Gap(start=HOLE_jump_s, end=HOLE_jump_e)]
-            return
+            self._gaps.append(Gap(start=HOLE_missing_s, end=HOLE_missing_e))
+        self._cleanup_gaps()
+    elif HOLE_no_jump:
         if HOLE_created:
             self._gaps.append(Gap(start=HOLE_created_s, end=HOLE_created_e))
         if len(self._gaps) > 0 and found_in_gaps:
             self._remove_gap(timestamp)
-    self._cleanup_gaps()
+        self._cleanup_gaps()
+    else:
+        self._gaps = [Gap(start=HOLE_jump_s, end=HOLE_jump_e)]
 """
 
 SK_IS_MISSING = """
 def is_missing(self, timestamp):
-    return any(map(lambda _lam0: _lam0.contains(timestamp), self._gaps))
+    return any((g.contains(timestamp) for g in self._gaps))
 """
 
 SK_CLEANUP = """
 def _cleanup_gaps(self):
-    self._gaps = sorted(self._gaps, key=lambda _lam0: _lam0.start.timestamp())
     i = 0
+    self._gaps = sorted(self._gaps, key=lambda x: x.start.timestamp())
     while i < len(self._gaps):
         w_1 = self._gaps[i]
         if i < len(self._gaps) - 1:
@@ -109,146 +109,95 @@ def _cleanup_gaps(self):
 
 SK_REMOVE = """
 def _remove_gap(self, timestamp):
-    gap_index, gap = next(filter(lambda _lam0: _lam0[1].contains(timestamp), enumerate(self._gaps)), (0, None))
-    if gap is None:
-        return
-    if HOLE_at_start:
-        if HOLE_whole:
-            del self._gaps[gap_index]
+    gap_index, gap = next(((j, g) for j, g in enumerate(self._gaps) if g.contains(timestamp)), (0, None))
+    if gap is not None:
+        if HOLE_at_start:
+            if HOLE_whole:
+                del self._gaps[gap_index]
+            else:
+                gap.start = HOLE_after
+        elif HOLE_at_end:
+            gap.end = timestamp
         else:
-            gap.start = HOLE_after
-    elif HOLE_at_end:
-        gap.end = timestamp
-    else:
-        new_gap = deepcopy(gap)
-        gap.end = timestamp
-        new_gap.start = HOLE_after2
-        self._gaps.append(new_gap)
+            new_gap = deepcopy(gap)
+            gap.end = timestamp
+            new_gap.start = HOLE_after2
+            self._gaps.append(new_gap)
 """
 
 
-def generate(repo: pathlib.Path) -> str:  # noqa: C901  (one linear recipe)
+def generate(repo: pathlib.Path) -> str:
     buf = ast.parse((repo / SOURCES[0]).read_text())
     out: list[str] = []
 
     def emit_prop(name: str, params: str, body: str, doc: str) -> None:
-        out.append(f"/-- {doc} -/\nabbrev {name} {params} : Prop := {body}\n")
+        out.append(lean_prop(name, params, body, doc))
 
     def emit_int(name: str, params: str, body: str, doc: str) -> None:
         out.append(f"/-- {doc} -/\ndef {name} {params} : Int := {body}\n")
 
+    def holes(cls: str, name: str, pattern: str) -> dict[str, ast.expr]:
+        return match(find_method(buf, cls, name), [pattern], f"{cls}.{name}")[1]
+
     # ---- Gap.contains
-    fn = find_method(buf, "Gap", "contains", like=[SK_CONTAINS])
-    test = _if_tests(strip_doc(fn))[0].test
-    expect(fn, {id(test): "c"}, [SK_CONTAINS], "Gap.contains")
+    h = holes("Gap", "contains", SK_CONTAINS)
     emit_prop("gapContains", "(start end_ timestamp : Int)",
-              prop(test, {"self.start": "start", "self.end": "end_", "timestamp": "timestamp"}), "`Gap.contains`")
+              prop(h["c"], {"self.start": "start", "self.end": "end_", "timestamp": "timestamp"}), "`Gap.contains`")
 
     # ---- normalize_timestamp
-    fn = find_method(buf, "OrderedRingBuffer", "normalize_timestamp", like=[SK_NORMALIZE])
-    test = _if_tests(strip_doc(fn))[0].test
-    expect(fn, {id(test): "c"}, [SK_NORMALIZE], "normalize_timestamp")
+    h = holes("OrderedRingBuffer", "normalize_timestamp", SK_NORMALIZE)
+    # (in the normal form the branch that keeps the floor quotient comes first: the recorded test is the negation)
     emit_prop("normRoundUp", "(remainder numSamples half : Int)",
-              prop(test, {"remainder": "remainder", "num_samples": "numSamples", "self._sampling_period / 2": "half",
-                          "timedelta(0)": "(0)"}),
+              prop(negate(h["keep"]), {"remainder": "remainder", "num_samples": "numSamples",
+                                       "self._sampling_period / 2": "half", "timedelta(0)": "(0)"}),
               "`normalize_timestamp`: when the floor quotient is incremented (`half` = `sampling_period / 2`, a timedelta "
               "true division: rounded half-to-even to a microsecond)")
 
     # ---- update
-    fn = find_method(buf, "OrderedRingBuffer", "update", like=[SK_UPDATE])
-    body = strip_doc(fn)
-    rej = _if_tests(body)[0].test
-    assigns = [s for s in body if isinstance(s, ast.Assign)]
-    a_new = next(s for s in assigns if ast.unparse(s.targets[0]) == "self._timestamp_newest")
-    a_old = next(s for s in assigns if ast.unparse(s.targets[0]) == "self._timestamp_oldest")
-    expect(fn, {id(rej): "reject", id(a_new.value): "newest", id(a_old.value): "oldest"}, [SK_UPDATE], "update")
-    emit_prop("updReject", "(timestamp oldest : Int) (oldestIsMax : Bool)",
-              prop(rej, {**COMMON, "self._timestamp_oldest != self._TIMESTAMP_MAX": "(oldestIsMax = false)"}),
+    h = holes("OrderedRingBuffer", "update", SK_UPDATE)
+    # (`timestamp`, the normalised timestamp of the sample, is not a local of the normal form)
+    up = {k: v for k, v in COMMON.items() if k != "timestamp"} | {
+        "self.normalize_timestamp(sample.timestamp)": "timestamp",
+        "self._timestamp_oldest != self._TIMESTAMP_MAX": "(oldestIsMax = false)",
+        "self._timestamp_oldest == self._TIMESTAMP_MAX": "(oldestIsMax = true)"}
+    emit_prop("updReject", "(timestamp oldest : Int) (oldestIsMax : Bool)", prop(h["reject"], up),
               "`update`: the sample is too old")
-    emit_int("updNewest", "(selfNewest timestamp : Int)", tr(a_new.value, COMMON), "`update`: new `_timestamp_newest`")
-    emit_int("updOldest", "(selfNewest fullRange period : Int)", tr(a_old.value, COMMON), "`update`: new `_timestamp_oldest`")
-    expect(find_method(buf, "OrderedRingBuffer", "has_value", like=[SK_HAS_VALUE]), {}, [SK_HAS_VALUE], "has_value")
+    emit_int("updNewest", "(selfNewest timestamp : Int)", tr(h["newest"], up), "`update`: new `_timestamp_newest`")
+    emit_int("updOldest", "(selfNewest fullRange period : Int)", tr(h["oldest"], up), "`update`: new `_timestamp_oldest`")
+    holes("OrderedRingBuffer", "has_value", SK_HAS_VALUE)
 
     # ---- _update_gaps
-    fn = find_method(buf, "OrderedRingBuffer", "_update_gaps", like=[SK_UPDATE_GAPS])
-    body = strip_doc(fn)
-    try:
-        # normal form: `if record_as_missing: <missing part> else: <jump>; <created>; <remove>`
-        (if_missing,) = _if_tests(body)
-        if_jump, if_created = _if_tests(if_missing.orelse)[:2]
-        jump_gap = if_jump.body[0].value.elts[0]  # type: ignore[attr-defined]
-        created_gap = if_created.body[0].value.args[0]  # type: ignore[attr-defined]
-        inner = if_missing.body[0]
-        start_gap = inner.body[0].value  # type: ignore[attr-defined]
-        missing_gap = inner.body[1].value.args[0]  # type: ignore[attr-defined]
-        kw = lambda call, k: next(x.value for x in call.keywords if x.arg == k)  # noqa: E731
-        holes = {id(if_jump.test): "jump", id(kw(jump_gap, "start")): "jump_s", id(kw(jump_gap, "end")): "jump_e",
-                 id(if_created.test): "created", id(kw(created_gap, "start")): "created_s",
-                 id(kw(created_gap, "end")): "created_e", id(start_gap): "missing_s", id(kw(missing_gap, "end")): "missing_e"}
-    except (AttributeError, IndexError, ValueError, StopIteration) as e:
-        raise Bad(f"_update_gaps: unexpected shape ({e})") from e
-    expect(fn, holes, [SK_UPDATE_GAPS], "_update_gaps")
+    h = holes("OrderedRingBuffer", "_update_gaps", SK_UPDATE_GAPS)
     ug = {**COMMON, "newest": "newest", "found_in_gaps": "(foundInGaps = true)"}
-    emit_prop("ugJump", "(selfNewest newest fullRange : Int)", prop(if_jump.test, ug),
+    # (in the normal form the jump is the `else` branch: the recorded test is the negation)
+    emit_prop("ugJump", "(selfNewest newest fullRange : Int)", prop(negate(h["no_jump"]), ug),
               "`_update_gaps`: valid value so far ahead that every older slot leaves the window")
-    emit_int("ugJumpStart", "(oldest selfNewest : Int)", tr(kw(jump_gap, "start"), ug), "start of the single gap after a jump")
-    emit_int("ugJumpEnd", "(oldest selfNewest : Int)", tr(kw(jump_gap, "end"), ug), "end of the single gap after a jump")
-    emit_prop("ugCreated", "(foundInGaps : Bool) (timestamp newest period : Int)", prop(if_created.test, ug),
+    emit_int("ugJumpStart", "(oldest selfNewest : Int)", tr(h["jump_s"], ug), "start of the single gap after a jump")
+    emit_int("ugJumpEnd", "(oldest selfNewest : Int)", tr(h["jump_e"], ug), "end of the single gap after a jump")
+    emit_prop("ugCreated", "(foundInGaps : Bool) (timestamp newest period : Int)", prop(h["created"], ug),
               "`_update_gaps`: the valid value skipped slots after the previous newest one")
-    emit_int("ugCreatedStart", "(timestamp newest period : Int)", tr(kw(created_gap, "start"), ug), "start of the skipped range")
-    emit_int("ugCreatedEnd", "(timestamp newest period : Int)", tr(kw(created_gap, "end"), ug), "end of the skipped range")
-    emit_int("ugMissingStart", "(timestamp newest period : Int)", tr(start_gap, ug), "start of the gap recorded for a missing value")
-    emit_int("ugMissingEnd", "(timestamp newest period : Int)", tr(kw(missing_gap, "end"), ug), "end of the gap recorded for a missing value")
-    expect(find_method(buf, "OrderedRingBuffer", "is_missing", like=[SK_IS_MISSING]), {}, [SK_IS_MISSING], "is_missing")
+    emit_int("ugCreatedStart", "(timestamp newest period : Int)", tr(h["created_s"], ug), "start of the skipped range")
+    emit_int("ugCreatedEnd", "(timestamp newest period : Int)", tr(h["created_e"], ug), "end of the skipped range")
+    emit_int("ugMissingStart", "(timestamp newest period : Int)", tr(h["missing_s"], ug), "start of the gap recorded for a missing value")
+    emit_int("ugMissingEnd", "(timestamp newest period : Int)", tr(h["missing_e"], ug), "end of the gap recorded for a missing value")
+    holes("OrderedRingBuffer", "is_missing", SK_IS_MISSING)
 
-    # ---- _cleanup_gaps
-    fn = find_method(buf, "OrderedRingBuffer", "_cleanup_gaps", like=[SK_CLEANUP])
-    try:
-        loop = next(s for s in strip_doc(fn) if isinstance(s, ast.While))
-        chain = loop.body[-1]
-        c1 = chain.test
-        c2 = chain.orelse[0].test
-        c3 = chain.orelse[0].orelse[0].test
-        c4 = chain.orelse[0].orelse[0].orelse[0].test
-        c3b, c4b = c3.values[1:], c4.values[1:]
-        if ast.unparse(c3.values[0]) != "w_2" or ast.unparse(c4.values[0]) != "w_2":
-            raise Bad("_cleanup_gaps: w_2 guard")
-        c3n = ast.BoolOp(op=ast.And(), values=c3b) if len(c3b) > 1 else c3b[0]
-        c4n = ast.BoolOp(op=ast.And(), values=c4b) if len(c4b) > 1 else c4b[0]
-    except (AttributeError, IndexError, StopIteration) as e:
-        raise Bad(f"_cleanup_gaps: unexpected shape ({e})") from e
-    # the `w_2 and …` guards stay in the skeleton; the holes are the remaining conjuncts
-    sk_holes = {id(c1): "outdated", id(c2): "rolled"}
-    # replace the tail conjuncts by one hole each: rebuild the tests so that the skeleton shows `w_2 and HOLE`
-    c3.values = [c3.values[0], ast.Name(id="HOLE_subset", ctx=ast.Load())]
-    c4.values = [c4.values[0], ast.Name(id="HOLE_neighbor", ctx=ast.Load())]
-    expect(fn, sk_holes, [SK_CLEANUP], "_cleanup_gaps")
+    # ---- _cleanup_gaps  (the `w_2 and …` guards stay in the pattern; the holes are the remaining conjuncts)
+    h = holes("OrderedRingBuffer", "_cleanup_gaps", SK_CLEANUP)
     cl = {"w_1.start": "w1s", "w_1.end": "w1e", "w_2.start": "w2s", "w_2.end": "w2e", "self._timestamp_oldest": "oldest"}
-    emit_prop("clOutdated", "(w1s w1e oldest : Int)", prop(c1, cl), "`_cleanup_gaps`: the gap ends before the window")
-    emit_prop("clRolled", "(w1s w1e oldest : Int)", prop(c2, cl), "`_cleanup_gaps`: the gap starts before the window")
-    emit_prop("clSubset", "(w1s w1e w2s w2e : Int)", prop(c3n, cl), "`_cleanup_gaps`: the next gap is contained in this one")
-    emit_prop("clNeighbor", "(w1s w1e w2s w2e : Int)", prop(c4n, cl), "`_cleanup_gaps`: the next gap touches or overlaps this one")
+    emit_prop("clOutdated", "(w1s w1e oldest : Int)", prop(h["outdated"], cl), "`_cleanup_gaps`: the gap ends before the window")
+    emit_prop("clRolled", "(w1s w1e oldest : Int)", prop(h["rolled"], cl), "`_cleanup_gaps`: the gap starts before the window")
+    emit_prop("clSubset", "(w1s w1e w2s w2e : Int)", prop(h["subset"], cl), "`_cleanup_gaps`: the next gap is contained in this one")
+    emit_prop("clNeighbor", "(w1s w1e w2s w2e : Int)", prop(h["neighbor"], cl), "`_cleanup_gaps`: the next gap touches or overlaps this one")
 
     # ---- _remove_gap
-    fn = find_method(buf, "OrderedRingBuffer", "_remove_gap", like=[SK_REMOVE])
-    try:
-        ifs = _if_tests(strip_doc(fn))
-        main = ifs[1]
-        whole = main.body[0]
-        at_end = main.orelse[0]
-        after = whole.orelse[0].value
-        after2 = next(s for s in at_end.orelse if isinstance(s, ast.Assign) and ast.unparse(s.targets[0]) == "new_gap.start").value
-        holes = {id(main.test): "at_start", id(whole.test): "whole", id(after): "after", id(at_end.test): "at_end",
-                 id(after2): "after2"}
-    except (AttributeError, IndexError, StopIteration) as e:
-        raise Bad(f"_remove_gap: unexpected shape ({e})") from e
-    expect(fn, holes, [SK_REMOVE], "_remove_gap")
+    h = holes("OrderedRingBuffer", "_remove_gap", SK_REMOVE)
     rg = {**COMMON, "gap.start": "gs", "gap.end": "ge"}
-    emit_prop("rgAtStart", "(gs ge timestamp period : Int)", prop(main.test, rg), "`_remove_gap`: the slot is the first of its gap")
-    emit_prop("rgWhole", "(gs ge timestamp period : Int)", prop(whole.test, rg), "`_remove_gap`: … and also the last one")
-    emit_prop("rgAtEnd", "(gs ge timestamp period : Int)", prop(at_end.test, rg), "`_remove_gap`: the slot is the last of its gap")
-    emit_int("rgAfter", "(timestamp period : Int)", tr(after, rg), "`_remove_gap`: new start when the first slot is removed")
-    emit_int("rgAfterSplit", "(timestamp period : Int)", tr(after2, rg), "`_remove_gap`: start of the second half of a split gap")
+    emit_prop("rgAtStart", "(gs ge timestamp period : Int)", prop(h["at_start"], rg), "`_remove_gap`: the slot is the first of its gap")
+    emit_prop("rgWhole", "(gs ge timestamp period : Int)", prop(h["whole"], rg), "`_remove_gap`: … and also the last one")
+    emit_prop("rgAtEnd", "(gs ge timestamp period : Int)", prop(h["at_end"], rg), "`_remove_gap`: the slot is the last of its gap")
+    emit_int("rgAfter", "(timestamp period : Int)", tr(h["after"], rg), "`_remove_gap`: new start when the first slot is removed")
+    emit_int("rgAfterSplit", "(timestamp period : Int)", tr(h["after2"], rg), "`_remove_gap`: start of the second half of a split gap")
 
     return ("import Frequenz.Model.Prelude\n\nset_option linter.unusedVariables false\n\nnamespace Extracted.RingBuffer\n\n" + "\n".join(out)
             + "\nend Extracted.RingBuffer\n")
